@@ -55,9 +55,21 @@ def deserialise(data):
     from vc2_conformance.bitstream import BitstreamReader, Deserialiser, parse_stream
     from vc2_conformance.pseudocode.state import State
 
+    import signal
+    import bytesgen as B
+
     r = BitstreamReader(BytesIO(data))
-    with Deserialiser(r) as des:
-        parse_stream(des, State())
+    # the validator has accepted these bytes within its own time limit: a deserialiser that does not finish on them
+    # is reported, not waited for
+    signal.signal(signal.SIGALRM, B._alarm)
+    signal.alarm(20)
+    try:
+        with Deserialiser(r) as des:
+            parse_stream(des, State())
+    except B.Timeout:
+        raise RuntimeError("the deserialiser did not finish within 20 s on an accepted stream of %d bytes" % len(data))
+    finally:
+        signal.alarm(0)
     return des.context
 
 
@@ -266,6 +278,37 @@ def violates(data):
     return None, "accepted"
 
 
+def splice_units(rng, data):
+    """insert padding / auxiliary data units with short payloads (0-5 bytes, mostly 1) after the sequence header and / or
+    before the end of the sequence, by hand on the bytes: every unit's next / previous parse offsets are rewritten"""
+    units, off = [], 0
+    while off < len(data):
+        nxt = int.from_bytes(data[off + 5:off + 9], "big")
+        if nxt == 0:
+            units.append(bytearray(data[off:]))
+            break
+        units.append(bytearray(data[off:off + nxt]))
+        off += nxt
+    if len(units) < 2 or any(bytes(u[:4]) != b"BBCD" for u in units) or units[-1][4] != 0x10:
+        return data   # (more than one sequence, or not walkable: left alone)
+
+    def unit():
+        n = rng.choice([1, 1, 1, 0, 2, 3, 5])
+        return bytearray(b"BBCD" + bytes([rng.choice([0x30, 0x20])]) + bytes(8) + bytes(rng.getrandbits(8) for _ in range(n)))
+    if rng.random() < 0.7:
+        units.insert(1, unit())
+    if rng.random() < 0.5:
+        units.insert(len(units) - 1, unit())
+    if rng.random() < 0.3:
+        units.insert(1, unit())
+    prev = 0
+    for i, u in enumerate(units):
+        u[5:9] = (0 if i == len(units) - 1 else len(u)).to_bytes(4, "big")
+        u[9:13] = prev.to_bytes(4, "big")
+        prev = len(u)
+    return b"".join(bytes(u) for u in units)
+
+
 def rand_stream(rng):
     """encoder output; sometimes two pictures with DIFFERENT quantisation matrices in one sequence; sometimes
     slice padding bits / dangling values through byte-level flips inside slice payloads"""
@@ -309,6 +352,8 @@ def rand_stream(rng):
         autofill_and_serialise_stream(f, Stream(sequences=[Sequence(data_units=units)]))
         return f.getvalue(), cf, "two-matrices"
     data, seq = G.encode(cf, pics)
+    if rng.random() < 0.2:
+        return splice_units(rng, data), cf, "extra-units"
     if rng.random() < 0.4:
         b = bytearray(data)
         # flip bits in the second half of the stream (slice payloads): most variants stay conformant
@@ -324,7 +369,7 @@ class Prop(object):
     lean_modules = ["VC2.Props.C08"]
     status = "partial"
     rule = ("accepted streams: encoder output for random small configurations (both profiles, fragments, asymmetric transforms, custom matrices), sequences whose pictures alternate "
-            "between two different custom quantisation matrices, and variants with bit flips inside slice payloads (padding bits, dangling bounded-block values, changed lengths and "
+            "between two different custom quantisation matrices, streams with extra padding / auxiliary data units carrying 0-5 payload bytes, and variants with bit flips inside slice payloads (padding bits, dangling bounded-block values, changed lengths and "
             "coefficients) that the validator still accepts: the REAL deserialiser's slices, dequantised with the deserialised quantisation matrix and DC-predicted with the real "
             "pseudocode helpers, are compared coefficient by coefficient with the transform arrays captured at the validator's picture_decode; picture count, numbers and slice counts too")
     trusted = ["model BitIO.lean (C20) with its io correspondence; the reconstruction uses the real slice geometry / inverse_quant / dc_prediction functions (properties C13, C12, C04)"]
@@ -335,11 +380,12 @@ class Prop(object):
         self._bad = None
         ctx.corr_names.append("REAL Deserialiser content (dequantised, DC-predicted) == transform data at the validator's picture_decode")
         for _ in range(ctx.n(700, 20000)):
+            data, kind = b"", "error"
             try:
                 data, cf, kind = rand_stream(rng)
                 why, res = violates(data)
             except Exception as e:  # noqa
-                why, res, kind, data, cf = "exception %s: %s" % (type(e).__name__, str(e)[:200]), "error", "error", b"", None
+                why, res = "exception %s: %s" % (type(e).__name__, str(e)[:200]), "error"
             ctx.evaluations += 1
             ctx.count("stream:%s:%s" % (kind, res))
             if res == "accepted":
@@ -353,11 +399,14 @@ class Prop(object):
     def search(self, ctx):
         rng = ctx.rng("search")
         for _ in range(ctx.n(2000, 30000)):
+            data = None
             try:
                 data, cf, kind = rand_stream(rng)
                 why, res = violates(data)
             except Exception as e:  # noqa
-                continue
+                if data is None:
+                    continue
+                why = "exception %s: %s" % (type(e).__name__, str(e)[:200])
             if why:
                 return {"bytes": data.hex(), "kind": kind, "why": why}
         return None
@@ -369,7 +418,10 @@ class Prop(object):
         if not fi or not fi.get("bytes"):
             print("replay names broken obligations only:", r.get("broken_obligations"), fi)
             return 1
-        why, res = violates(bytes.fromhex(fi["bytes"]))
+        try:
+            why, res = violates(bytes.fromhex(fi["bytes"]))
+        except Exception as e:  # noqa
+            why, res = "exception %s: %s" % (type(e).__name__, str(e)[:200]), "error"
         print("replay ->", why or "property holds (%s)" % res)
         return 1 if why else 0
 
